@@ -76,6 +76,30 @@ def hostile_doc(rng, allow_gap):
     return {"openapi": "3.1.0", "info": {"title": hostile_name(rng) + " API", "version": "1.0", "description": "d"}, "paths": paths, "components": {"schemas": S}}
 
 
+def broken_docs():
+    """valid documents with ONE piece that fails model processing (warning) and dependants through every recorded edge kind:
+    nothing that remains may refer to what was removed"""
+    R = G.REF
+    bad_pieces = {
+        "allof_non_object": {"allOf": [{"$ref": R + "Colour"}, {"type": "object", "properties": {"x": {"type": "string"}}}]},
+        "array_no_items": {"type": "object", "properties": {"bad": {"type": "array"}}},
+        "bad_default": {"type": "object", "properties": {"n": {"type": "integer", "default": "not a number"}}},
+        "dangling_ref": {"type": "object", "properties": {"z": {"$ref": R + "Nowhere"}}},
+    }
+    docs = []
+    for label, piece in bad_pieces.items():
+        S = {"Colour": {"type": "string", "enum": ["red", "green"]}, "Base": piece,
+             "Holder": G.obj({"one": {"$ref": R + "Base"}}), "Basket": G.obj({"many": G.arr({"$ref": R + "Base"})}),
+             "Bag": G.obj({"k": {"type": "string"}}, addl={"$ref": R + "Base"}), "Nested": G.obj({"deep": G.arr(G.arr({"$ref": R + "Base"}))}),
+             "Child": {"allOf": [{"$ref": R + "Holder"}, G.obj({"extra": {"type": "integer"}})]}, "Far": G.obj({"h": {"$ref": R + "Holder"}, "b": {"$ref": R + "Basket"}}),
+             "Fine": G.obj({"c": {"$ref": R + "Colour"}, "ok": {"type": "string"}})}
+        paths = {"/fine": {"get": OPS.op("get_fine", responses={"200": {"description": "d", "content": {"application/json": {"schema": {"$ref": R + "Fine"}}}}})},
+                 "/far": {"get": OPS.op("get_far", responses={"200": {"description": "d", "content": {"application/json": {"schema": {"$ref": R + "Far"}}}}})},
+                 "/basket": {"post": OPS.op("post_basket", body={"content": {"application/json": {"schema": G.arr({"$ref": R + "Basket"})}}})}}
+        docs.append((f"broken_{label}", {"openapi": "3.1.0", "info": {"title": "t", "version": "1"}, "paths": paths, "components": {"schemas": S}}))
+    return docs
+
+
 def names_in(doc):
     out = []
     def walk(x, key=None):
@@ -228,6 +252,8 @@ def run(run, tier, replay=None):
     for l, d in base[:3] + base[-2:]:
         jobs.append((f"{l}/literal", d, "none", {"literal_enums": True}, 0))
         jobs.append((f"{l}/docattr", d, "none", {"docstrings_on_attributes": True}, 0))
+    for l, d in broken_docs():
+        jobs.append((l, d, "none", None, 0))
     nh = 24 if tier == "quick" else 300
     for i in range(nh):
         d = hostile_doc(random.Random(rng.randrange(1 << 30)), allow_gap=(i % 6 == 0))
